@@ -118,10 +118,11 @@ PartClearlyDiffer(p, q) ==
    (one fitted on a prefix of the other's rows that contains them all) have
    decision values +-1e-17 there.  For such an object only a difference of
    the continuous outputs beyond the slack counts as observable; a discrete
-   difference alone does not.  (This narrows the premise of the "does not
+   difference alone does not (unless the object has no usable continuous
+   output at all, e.g. a model whose state is NaN).  (This narrows the premise of the "does not
    equal" clause; it cannot raise an alarm.  Found as a false alarm of the
    thorough tier on the unchanged tree, run 12050.) *)
-HasContinuous(o) == \E i \in 1..Len(o.parts) : PartOk(o.parts[i]) /\ Len(o.parts[i].cfx) > 0
+HasContinuous(o) == \E i \in 1..Len(o.parts) : PartOk(o.parts[i]) /\ \E j \in 1..Len(o.parts[i].cfx) : o.parts[i].cok[j]
 ClearlyDiffer(o1, o2) ==
     /\ o1.status = "ok" /\ o2.status = "ok"
     /\ Len(o1.parts) = Len(o2.parts)
